@@ -204,7 +204,8 @@ def print_assumptions(pid, module, theorems, workdir):
     """Run coqc on a tiny file printing the assumptions of each theorem.
     Returns dict name -> list of axioms (or None if the theorem is not available)."""
     res = {t: None for t in theorems}
-    if not vo_exists(module):
+    # `module` may name several modules separated by blanks (a property citing a theorem of another one)
+    if not all(vo_exists(m) for m in module.split()):
         return res
     src = "From KG Require Import %s.\n" % module
     for t in theorems:
